@@ -110,7 +110,7 @@ def run(chk):
         chk.ob("R18.1", "store to field %s in %s has a resolvable receiver class" % (fld, q), False, loc="%s:%d" % (q, ln), key="C18|R18.1|unknown|%s|%s" % (fld, q), detail="a field store whose receiver class cannot be determined: %s in %s" % (fld, q))
     found = {k for k in hw}
     missing = [k for k in EXPECTED_WRITERS if k not in found]
-    chk.floor("R18.1", "hidden-mutation table entries found", len(found), 6)
+    chk.floor("R18.1", "hidden-mutation table entries found", len(found), 4)
     if missing:
         raise AnalysisError("expected hidden writers vanished (table stale): %s" % missing)
     # global writes
@@ -211,7 +211,7 @@ def run(chk):
                 ok &= bool(sc) and not used_arith
             chk.ob("R18.3", "%s: coordinates of `%s` come from one snapshot (%d unpack(s), %d test-only load(s))" % (name, r, len(unp), sum(1 for x in ls if x[1] == "test-index")), ok,
                    loc="ellipticcurve:PointJacobi.%s" % name, key="C18|R18.3|%s|%s" % (name, r), detail="%s reads the coordinate tuple of `%s` more than once into arithmetic (torn read possible under a concurrent scale())" % (name, r))
-    chk.floor("R18.3", "methods reading the coordinate tuple", nmeth, 10)
+    chk.floor("R18.3", "methods reading the coordinate tuple", nmeth, 5)
     badpre = []
     npre = 0
     for name, f in pj.methods.items():
@@ -228,7 +228,7 @@ def run(chk):
                     ok = False
                 if not ok:
                     badpre.append("%s:%d `%s`" % (name, n.lineno, norm_text(par)[:40]))
-    chk.floor("R18.3", "reads of the precompute table", npre, 4)
+    chk.floor("R18.3", "reads of the precompute table", npre, 2)
     chk.ob("R18.3", "the table is read by truthiness and whole-list iteration only [%d read(s)]" % npre, not badpre, loc="ellipticcurve:PointJacobi", key="C18|R18.3|precompute-reads", detail="table read under a length/index assumption: %s" % badpre[:3])
     # ---- R18.4
     f = p.func("ellipticcurve:PointJacobi._maybe_precompute")
